@@ -589,5 +589,11 @@ pub fn gen(r: &mut Rng, thorough: bool, count: Option<usize>) -> Vec<Value> {
     for _ in 0..(4 * mult) { let mut rr = r.fork(); next(&mut out, super::gen2::gen_migrate_case(&mut rr, id)); id += 1; }
     for k in 0..(6 * mult) { let mut rr = r.fork(); next(&mut out, super::gen2::gen_busy_case(&mut rr, id, k)); id += 1; }
     for k in 0..8 { let mut rr = r.fork(); next(&mut out, super::gen2::gen_logger_case(&mut rr, id, k)); id += 1; }
+    // coverage round 2 (rows 2 and 4), appended again so that every id above keeps its case
+    for _ in 0..(4 * mult) { let mut rr = r.fork(); next(&mut out, super::gen2::gen_fault_case(&mut rr, id)); id += 1; }
+    { let mut rr = r.fork(); next(&mut out, super::gen2::gen_null_args_case(&mut rr, id)); id += 1; }
+    { let mut rr = r.fork(); next(&mut out, super::gen2::gen_busy_case(&mut rr, id, 6)); id += 1; }
+    { let mut rr = r.fork(); next(&mut out, super::gen2::gen_logger_case(&mut rr, id, 8)); id += 1; }
+    next(&mut out, super::gen2::gen_terminate_case(id));
     out
 }
